@@ -473,6 +473,17 @@ def run(ctx):
                and any(au.path(s) == "self.name" for s in [n.left] + n.comparators) for n in txt_nodes)
     ctx.ob("C04.a", dcf, "filters the rows of its own asset", filt,
            "Asset.dcf no longer restricts the mapping to asset == self.name: cash flows of other assets would be added", node=dcf.node)
+    # ... and nothing else: every variable of the asset (dispatch, internal, size ...) has a cost in the objective
+    sel_cols = set()
+    for n in txt_nodes:
+        if isinstance(n, ast.Compare) or (isinstance(n, ast.Call) and au.method_name(n) in ("isin", "isnull", "notnull")):
+            for x in au.walk_local(n):
+                if isinstance(x, ast.Subscript) and au.const_str(x.slice) in ("asset", "type", "node", "var_name", "time_step", "bool"):
+                    sel_cols.add(au.const_str(x.slice))
+    ctx.ob("C04.a", dcf, "every variable of the asset is accounted", sel_cols <= {"asset"},
+           "Asset.dcf restricts the rows by %s as well: variables of the asset outside that selection (e.g. the scale variable of type "
+           "'size' with its fixed costs) are in the objective but missing from the cash flows, so value != sum of cash flows" % sorted(sel_cols - {"asset"}),
+           node=dcf.node)
     dedup = [n for n in txt_nodes if isinstance(n, ast.Call) and au.method_name(n) == "duplicated"]
     by_index = bool(dedup) and all(isinstance(n.func, ast.Attribute) and au.terminal(n.func.value) == "index" for n in dedup)
     ctx.ob("C04.a", dcf, "de-duplicates by index", by_index,
